@@ -855,3 +855,9 @@ MUTANTS += [
                ('d42/generation/_regex_generator.py', '        if opcode == ANY:\n            return self._generate_any(value)\n        elif opcode == LITERAL:\n            return self._generate_literal(value)\n        elif opcode == NOT_LITERAL:\n            return self._generate_not_literal(value)\n        elif opcode == IN:\n', '        if opcode == ANY:\n            return self._generate_any(value)\n        elif opcode == LITERAL:\n            return self._generate_cased(self._generate_literal(value))\n        elif opcode == NOT_LITERAL:\n            return self._generate_not_literal(value)\n        elif opcode == IN:\n'),
                ('d42/generation/_regex_generator.py', '\n    def generate(self, pattern: str) -> str:\n        parsed = sre.parse(pattern)  # type: Any\n        return self._generate_pattern(parsed)\n', '\n    def generate(self, pattern: str) -> str:\n        parsed = sre.parse(pattern)  # type: Any\n        self._flags = parsed.state.flags\n        return self._generate_pattern(parsed)\n')]},
 ]
+
+# round 8: the seeded changes that were missed on first contact, replayed against the current tree
+MUTANTS += [
+    {"name": 'seeded C01-P', "rule": 'MIRROR',
+     "edits": [('d42/declaration/_is_ellipsis.py', 'from typing import TYPE_CHECKING, Any, TypeVar, Union\n\n__all__ = ("is_ellipsis", "EllipsisType", "TypeOrEllipsis",)\n\nif TYPE_CHECKING:\n    import builtins\n    EllipsisType = builtins.ellipsis\nelse:\n    EllipsisType = Any\n\n\ndef is_ellipsis(value: Any) -> bool:\n    return isinstance(value, type(...))\n\n\n_T = TypeVar("_T")\n', 'import sys\nfrom typing import Any, TypeVar, Union\n\n__all__ = ("is_ellipsis", "EllipsisType", "TypeOrEllipsis",)\n\nif sys.version_info >= (3, 10):\n    from types import EllipsisType\nelse:\n    EllipsisType = Any\n\n\ndef is_ellipsis(value: Any) -> bool:\n    # Ellipsis is a singleton, no need to build its type on every call\n    return value == Ellipsis\n\n\n_T = TypeVar("_T")\n')]},
+]
